@@ -37,6 +37,7 @@ type Doc struct {
 type Meta struct {
 	Kind   string `gomacro-data:"ignore"`
 	Author string
+	Tags   []string
 }
 
 type DocKind int
@@ -225,3 +226,25 @@ type Bag struct {
 }
 
 type MapstringItem map[string]Item
+
+// Order embeds a struct that holds a union and adds plain fields of its own.
+type Order struct {
+	Signed
+	ID    int
+	Lines []string
+}
+
+type Signed struct {
+	By Shape
+}
+
+// Timeline holds many instants: whatever state the time helper keeps is
+// exercised thousands of times in one process.
+type Timeline struct {
+	Stamps [600]Instant
+	Days   [200]MyDate
+}
+
+type Instant struct {
+	At time.Time
+}
